@@ -9,10 +9,16 @@
 (*           target-level servers, instance-independent attributes only)     *)
 (*     user = uuid -> <<attrs>>           attributes the user set on the     *)
 (*           entries the user created                                        *)
+(*     removed = uuid -> attr -> <<values>>  values of built-in entries an   *)
+(*           administrator removed before the upgrade: for a multi-valued    *)
+(*           attribute the migration data specifies, a PROPER NON-EMPTY      *)
+(*           subset of the specified values (so the stored value is a subset *)
+(*           of Defined \cup Extra that still meets Defined)                 *)
 (* L1  the upgrade succeeds; the consistency check passes; every user        *)
 (*     entry is still there, in the same liveness class, with every user-set *)
 (*     value; every defined built-in entry exists and carries every defined  *)
-(*     value.                                                               *)
+(*     value - in particular every removed one is back (Restored) - and     *)
+(*     values the user added to built-in entries survive.                   *)
 (* L2  migration = "assert" of each definition (gen_modlist_assert):         *)
 (*     single-valued attributes are replaced, multi-valued ones get the      *)
 (*     defined values added, nothing else is touched.                        *)
@@ -35,6 +41,15 @@ DefEntryOk(post, def, u) ==
   /\ \A a \in DOMAIN def[u] : Range(def[u][a]) \subseteq ValsOf(post, u, a)
 DefinitionsPresent(post, def) == \A u \in DOMAIN def : DefEntryOk(post, def, u)
 
+\* the removal really was RemoveSome (L0 sanity of the logged perturbation) ...
+RemovedOk(pre, def, removed, u, a) ==
+  /\ removed[u][a] # <<>>
+  /\ Range(removed[u][a]) \cap ValsOf(pre, u, a) = {}
+  /\ u \in DOMAIN def /\ a \in DOMAIN def[u] => (Range(def[u][a]) \cap ValsOf(pre, u, a)) # {}     \* proper: a defined value stayed
+\* ... and the upgrade brings every removed value back
+RestoredAt(post, removed, u, a) == Range(removed[u][a]) \subseteq ValsOf(post, u, a)
+Restored(post, removed) == \A u \in DOMAIN removed : \A a \in DOMAIN removed[u] : RestoredAt(post, removed, u, a)
+
 L1Upgrade(pre, post, user, def, res, verify) ==
   /\ res = "ok" /\ verify = <<>>
   /\ UserDataKept(pre, post, user)
@@ -49,4 +64,9 @@ AssertDef(db, d, u, single) ==
                    ELSE IF a \in single \/ a \notin DOMAIN old THEN d[a]
                    ELSE old[a] \o SelectSeq(d[a], LAMBDA v : v \notin Range(old[a]))]
   IN [x \in DOMAIN db \cup {u} |-> IF x = u THEN [live |-> "live", attrs |-> merged] ELSE db[x]]
+
+\* The shortcut "skip the entry when it already satisfies the definition" is only sound with ALL defined values
+\* present.  The variant that is content with ONE value per attribute (vacuity guard of KUpgradeMC: it must be refuted).
+SatisfiedAny(db, d, u) == u \in DOMAIN db /\ \A a \in DOMAIN d : Range(d[a]) \cap ValsOf(db, u, a) # {}
+AssertDefSkipAny(db, d, u, single) == IF SatisfiedAny(db, d, u) THEN db ELSE AssertDef(db, d, u, single)
 =============================================================================
